@@ -63,7 +63,7 @@ Proof.
     apply in_app_or in Hj. destruct Hj as [Hj|[<-|[]]]; [|discriminate].
     destruct (match s with FromFail _ => it_orig it | FromTimeout o => o end); [|contradiction].
     unfold orig_tail in Hj. destruct s; in_cases Hj; discriminate.
-  - destruct (items_delete st t) as [st' g]. destruct g as [[it [|]]|]; inversion H; subst; try contradiction.
+  - destruct (items_delete_call st t lk) as [st' g]. destruct g as [[it [|]]|]; inversion H; subst; try contradiction.
     in_cases Hj; discriminate.
   - destruct (zlookup tm (timers st)) as [x|]; [|inversion H; subst; contradiction].
     destruct (tm_released x); inversion H; subst; try contradiction. destruct Hj as [<-|[]]. discriminate.
@@ -73,12 +73,12 @@ Qed.
    key (or an Add of the same key, which the freshness of keys excludes) *)
 Lemma exec_items_keep : forall cf st i room st1 pushed t it, exec cf st i room = (st1, pushed) ->
   klookup t (items st) = Some it ->
-  klookup t (items st1) = Some it \/ (exists s, i = IEntomb t s) \/ i = IDelete t \/
+  klookup t (items st1) = Some it \/ (exists s, i = IEntomb t s) \/ (exists lk, i = IDelete t lk) \/
   (exists k f e c d, i = IAddDest k f e c d /\ t = (d, 1, c_nextid (get_conn st d))) \/
   (exists k f e c d did, i = IAddOrig k f e c d did /\ t = (k, 0, f_id f)).
 Proof.
   intros cf st i room st1 pushed t it H Hl.
-  assert (Hsame : items st1 = items st -> klookup t (items st1) = Some it \/ (exists s, i = IEntomb t s) \/ i = IDelete t \/
+  assert (Hsame : items st1 = items st -> klookup t (items st1) = Some it \/ (exists s, i = IEntomb t s) \/ (exists lk, i = IDelete t lk) \/
             (exists k f e c d, i = IAddDest k f e c d /\ t = (d, 1, c_nextid (get_conn st d))) \/
             (exists k f e c d did, i = IAddOrig k f e c d did /\ t = (k, 0, f_id f))).
   { intro He. left. rewrite He. exact Hl. }
@@ -124,7 +124,8 @@ Proof.
       * exact Hl.
       * rewrite (lookup_insert_neq key_eqb key_eqb_ok) by exact Hn. exact Hl.
     + destruct E as (_&Hi&_). rewrite Hi. exact Hl.
-  - destruct (eqb_dec key_eqb key_eqb_ok t t0) as [->|Hn]; [right; right; left; reflexivity|left].
+  - destruct (eqb_dec key_eqb key_eqb_ok t t0) as [->|Hn]; [right; right; left; exists lk; reflexivity|left].
+    destruct (items_delete_call_cases st t0 lk) as [Ec|[Ec _]]; rewrite Ec in H; [|inversion H; subst; exact Hl].
     destruct (items_delete st t0) as [st' g] eqn:E. apply items_delete_spec in E. destruct E as (_&_&_&_&_&_&_&E).
     assert (Hst : items st1 = items st').
     { destruct g as [[it0 [|]]|]; inversion H; reflexivity. }
@@ -178,7 +179,7 @@ Proof.
     destruct g as [[it0 [|]]|]; eapply Hsame; try exact H; exact A.
   - destruct (items_entomb cf st t) as [st' g] eqn:E. apply items_entomb_spec in E. destruct E as (A&_).
     destruct g as [[it0 [|]]|]; eapply Hsame; try exact H; exact A.
-  - destruct (items_delete st t) as [st' g] eqn:E. apply items_delete_spec in E. destruct E as (A&_).
+  - destruct (items_delete_call st t lk) as [st' g] eqn:E. apply items_delete_call_spec in E. destruct E as (A&_).
     destruct g as [[it0 [|]]|]; eapply Hsame; try exact H; exact A.
   - destruct (zlookup tm (timers st)) as [x|]; [|eapply Hsame; [exact H|reflexivity]].
     destruct (tm_released x); eapply Hsame; try exact H; reflexivity.
@@ -192,7 +193,7 @@ Definition flight (j : instr) : option (key * Z * Z * Z) :=
   match j with
   | INcChk _ _ ft own (Some (it, _)) =>
       if (ft =? c_responseFrame) && negb (it_tomb it) then Some (own, it_dest it, it_remap it, it_call it) else None
-  | IRcvGet r | IRcvChk r _ _ | IRcvEnq r _ =>
+  | IRcvGet r | IRcvChk r _ _ | IRcvEnq r _ _ =>
       if r_ft r =? c_responseFrame then Some (r_own r, r_d r, f_id (r_f r), r_call r) else None
   | _ => None
   end.
@@ -270,7 +271,7 @@ Proof.
     apply in_app_or in Hj. destruct Hj as [Hj|[<-|[]]]; [|discriminate].
     destruct (match s with FromFail _ => it_orig it | FromTimeout o => o end); [|contradiction].
     unfold orig_tail in Hj. destruct s; in_cases Hj; discriminate.
-  - destruct (items_delete st t) as [st' g]. destruct g as [[it [|]]|]; inversion H; subst; try contradiction.
+  - destruct (items_delete_call st t lk) as [st' g]. destruct g as [[it [|]]|]; inversion H; subst; try contradiction.
     in_cases Hj; discriminate.
   - destruct (zlookup tm (timers st)) as [x0|]; [|inversion H; subst; contradiction].
     destruct (tm_released x0); inversion H; subst; try contradiction. destruct Hj as [<-|[]]. discriminate.
@@ -513,7 +514,7 @@ Definition thr_ok (th : tid) (j : instr) : Prop :=
   | INcGet k _ => th = TR k
   | INcChk k f ft own _ => th = TR k /\ own = (k, (if ft =? c_responseFrame then 1 else 0), f_id f)
   | IRcvGet r => r_ft r = c_responseFrame -> th = TR (key_conn (r_own r)) /\ key_dir (r_own r) = 1
-  | IRcvChk r rk _ | IRcvEnq r rk =>
+  | IRcvChk r rk _ | IRcvEnq r rk _ =>
       rk = rcv_key r /\ (r_ft r = c_responseFrame -> th = TR (key_conn (r_own r)) /\ key_dir (r_own r) = 1)
   | _ => True
   end.
@@ -589,7 +590,7 @@ Proof.
     apply in_app_or in Hj. destruct Hj as [Hj|[<-|[]]]; [|kt].
     destruct (match s with FromFail _ => it_orig it | FromTimeout o => o end); [|contradiction].
     unfold orig_tail in Hj. destruct s; in_cases Hj; kt.
-  - destruct (items_delete st t) as [st' g]. destruct g as [[it [|]]|]; inversion H; subst; try contradiction.
+  - destruct (items_delete_call st t lk) as [st' g]. destruct g as [[it [|]]|]; inversion H; subst; try contradiction.
     in_cases Hj; kt.
   - destruct (zlookup tm (timers st)) as [x0|]; [|inversion H; subst; contradiction].
     destruct (tm_released x0); inversion H; subst; try contradiction. destruct Hj as [<-|[]].
@@ -635,7 +636,7 @@ Proof.
     apply in_app_or in Hj. destruct Hj as [Hj|[<-|[]]]; [|exact I].
     destruct (match s with FromFail _ => it_orig it | FromTimeout o => o end); [|contradiction].
     unfold orig_tail in Hj. destruct s; in_cases Hj; exact I.
-  - destruct (items_delete st t) as [st' g]. destruct g as [[it [|]]|]; inversion H; subst; try contradiction.
+  - destruct (items_delete_call st t lk) as [st' g]. destruct g as [[it [|]]|]; inversion H; subst; try contradiction.
     in_cases Hj; exact I.
   - destruct (zlookup tm (timers st)) as [x0|]; [|inversion H; subst; contradiction].
     destruct (tm_released x0); inversion H; subst; try contradiction. destruct Hj as [<-|[]]. exact I.
@@ -807,7 +808,7 @@ Proof.
               (exists thj code0, In (thj, code0) (threads st) /\ In j code0 /\ (thj = th -> In j rest)) \/ flight i <> None ->
               klookup own (items st1) = Some it1).
     { intros it1 Hl1 Hlive1 Hcall1 _ Hwho.
-      destruct (exec_items_keep _ _ _ _ _ _ _ _ E Hl1) as [Hk|[(s&Hi)|[Hi|[(k&f&e&c0&d&Hi&Ht)|(k&f&e&c0&d&did&Hi&Ht)]]]]; [exact Hk| | | |].
+      destruct (exec_items_keep _ _ _ _ _ _ _ _ E Hl1) as [Hk|[(s&Hi)|[(lk0&Hi)|[(k&f&e&c0&d&Hi&Ht)|(k&f&e&c0&d&did&Hi&Ht)]]]]; [exact Hk| | | |].
       - exfalso. subst i. destruct Hwho as [(thj&code0&Hinj&Hjj&Hrest)|Hfi]; [|apply Hfi; reflexivity].
         assert (Hhj : In (thj, c) h) by (eapply Hholds; [exact Hinj|exact Hjj|eapply flight_oncall; exact Hfl]).
         assert (Heq : thj = th).
@@ -830,7 +831,7 @@ Proof.
       * destruct (f_own _ _ HF _ _ _ _ _ _ _ Hin0 (or_introl eq_refl) Hfi) as (it1&Hl1&A&B&C&D).
         exists it1. split; [|repeat split; assumption]. apply Hpersist; try assumption; [intros; exact I|]. right. congruence.
       * inversion Hx. subst own tk ti c. exists it. split; [|repeat split; assumption].
-        destruct (exec_items_keep _ _ _ _ _ _ _ _ E Hl) as [Hk|[(s&Hi2)|[Hi2|[(k2&f2&e2&c2&d2&Hi2&_)|(k2&f2&e2&c2&d2&did2&Hi2&_)]]]]; [exact Hk| | | |]; subst i; discriminate.
+        destruct (exec_items_keep _ _ _ _ _ _ _ _ E Hl) as [Hk|[(s&Hi2)|[(lk0&Hi2)|[(k2&f2&e2&c2&d2&Hi2&_)|(k2&f2&e2&c2&d2&did2&Hi2&_)]]]]; [exact Hk| | | |]; subst i; discriminate.
     + destruct (f_own _ _ HF _ _ _ _ _ _ _ Hin1 Hj1 Hfl) as (it1&Hl1&A&B&C&D).
       exists it1. split; [|repeat split; assumption]. apply Hpersist; try assumption; [intros; exact I|]. left. exists th', code0. repeat split; assumption.
   - (* f_noadm *)
@@ -993,18 +994,18 @@ Qed.
 
 Record AllInv (st : state) (h : held) : Prop := {
   a_inv : Inv st; a_tinv : TInv st; a_winv : WInv st; a_hinv : HInv st h; a_shape : Shape st;
-  a_tpair : TPair st; a_finv : FInv st h
+  a_tpair : TPair st; a_finv : FInv st h; a_linv : LInv st
 }.
 
 Lemma AllInv_init : AllInv init [].
 Proof.
-  constructor; [apply Inv_init|apply TInv_init|apply WInv_init|apply HInv_init|apply Shape_init|apply TPair_init|apply FInv_init].
+  constructor; [apply Inv_init|apply TInv_init|apply WInv_init|apply HInv_init|apply Shape_init|apply TPair_init|apply FInv_init|apply LInv_init].
 Qed.
 
 Lemma step_all : forall cf st h l st', AllInv st h -> fresh_label st l = true -> no_overlap_step st h l = true ->
   causal_step st l = true -> step cf st l = Some st' -> AllInv st' (held_next st l st' h).
 Proof.
-  intros cf st h l st' [HI HT HW HH HS HP HF] Hf Hno Hc Hs. constructor.
+  intros cf st h l st' [HI HT HW HH HS HP HF HL] Hf Hno Hc Hs. constructor.
   - eapply step_inv; eassumption.
   - eapply step_tinv; eassumption.
   - eapply step_winv; eassumption.
@@ -1012,4 +1013,5 @@ Proof.
   - eapply step_shape; eassumption.
   - eapply step_tpair; eassumption.
   - eapply step_finv; eassumption.
+  - eapply LInv_step; eassumption.
 Qed.
